@@ -2,7 +2,17 @@
 """Writes MANIFEST.json from lib/claims.json (one record per claimed property) + properties.jsonl."""
 import json, os
 ROOT = os.path.dirname(os.path.dirname(os.path.abspath(__file__)))
-claims = json.load(open(os.path.join(ROOT, "lib", "claims.json")))
+import glob
+g = json.load(open(os.path.join(ROOT, "lib", "claims", "_global.json")))
+claims = {"claimed": {}, "not_applicable": g.get("not_applicable", {}), "notes": g.get("notes", ""), "hook_commits": g.get("hook_commits", [])}
+for f in sorted(glob.glob(os.path.join(ROOT, "lib", "claims", "C*.json"))):
+    claims["claimed"][os.path.basename(f)[:-5]] = json.load(open(f))
+# aggregate known findings (one file per property under known_findings/) into KNOWN_FINDINGS.json
+kf = []
+for f in sorted(glob.glob(os.path.join(ROOT, "known_findings", "C*.json"))):
+    kf += json.load(open(f))
+json.dump({"comment": "Genuine defects of the pinned tree recorded rather than repaired (status open: suppressed and printed as KNOWN-FINDING) or repaired by a fix: commit (status fixed: suppress nothing). Aggregated from known_findings/Cxx.json by lib/mkmanifest.py; never written at run time.",
+           "findings": kf}, open(os.path.join(ROOT, "KNOWN_FINDINGS.json"), "w"), indent=1)
 props = [json.loads(l) for l in open(os.path.join(ROOT, "properties.jsonl"))]
 checks, na = [], []
 for p in props:
